@@ -10,7 +10,7 @@ CONSTANTS
   MonotoneSteps = TRUE
   Objective = "reward"
   Policy = "neg"
-  CtrlAt = {1, 3}
+  CtrlAt = {1, 4}
   MetaKeys = {}
   MetaVals = {}
   LinkNames = {}
